@@ -310,14 +310,41 @@ func (c scaledBytesCmp) Compare(a, b []byte) int { return c.k * bytes.Compare(a,
 // ---------------------------------------------------------------------------------------------
 // stream "pq": k-way merge heap (C16)
 
+// how an input signals exhaustion: the bare sentinel, or an error that wraps it (errors.Is is the documented test)
+const (
+	pqDoneBare = iota
+	pqDoneWrapped
+	pqDoneWrappedTwice
+)
+
+var pqDoneNames = []string{"bare", "wrapped", "wrapped-twice"}
+
+var errPqRead = errors.New("injected read fault")
+
 type sliceIter struct {
-	items [][2][]byte
-	pos   int
-	ctx   int
+	items  [][2][]byte
+	pos    int
+	ctx    int
+	done   int // pqDone*
+	failAt int // -1: never; otherwise the call (0-based) that returns a real error instead of its element / of Done
+	calls  int
+	hit    bool
 }
 
 func (s *sliceIter) Next() ([]byte, []byte, error) {
+	n := s.calls
+	s.calls++
+	if s.failAt >= 0 && n >= s.failAt {
+		s.hit = true
+		return nil, nil, fmt.Errorf("input %d: reading element %d: %w", s.ctx, n, errPqRead)
+	}
 	if s.pos >= len(s.items) {
+		switch s.done {
+		case pqDoneWrapped:
+			return nil, nil, fmt.Errorf("input %d exhausted: %w", s.ctx, pq.Done)
+		case pqDoneWrappedTwice:
+			return nil, nil, fmt.Errorf("merge source: %w", fmt.Errorf("input %d exhausted: %w", s.ctx, pq.Done))
+		}
 		return nil, nil, pq.Done
 	}
 	it := s.items[s.pos]
@@ -328,6 +355,8 @@ func (s *sliceIter) Context() int { return s.ctx }
 
 func runPq(res *Result, drv *Driver, seed uint64, n int, tier string, only int) error {
 	res.Rule = "0..8 ascending inputs of differing lengths over a small key alphabet (duplicates across inputs, empty inputs, empty key); " +
+		"each input signals exhaustion with the bare pq.Done or with an error wrapping it (inputs empty from the start and inputs that run dry later); " +
+		"15% of the cases have one input whose k-th call returns a real error (wrapping another sentinel) instead of its element or of Done; " +
 		"non-trivial = at least 2 non-empty inputs; distinct = distinct input lists"
 	for idx := 0; idx < n; idx++ {
 		if only >= 0 && idx != only {
@@ -359,6 +388,10 @@ func runPq(res *Result, drv *Driver, seed uint64, n int, tier string, only int) 
 			var in [][2][]byte
 			for _, x := range ks {
 				key := []byte{byte(x)}
+				if x > 255 {
+					// long inputs (thorough tier) exceed one byte: continue above ff so that the input stays ascending
+					key = []byte{0xff, byte(x - 255)}
+				}
 				if x == 0 && r.Chance(50) {
 					key = []byte{} // the empty key sorts first
 				}
@@ -370,52 +403,111 @@ func runPq(res *Result, drv *Driver, seed uint64, n int, tier string, only int) 
 			inputs = append(inputs, in)
 		}
 		res.Stat(fmt.Sprintf("inputs=%d", k))
+		// exhaustion style per input and an optional failing input: drawn from a second generator state so that the
+		// generated element lists are those of the plain cases
+		r2 := NewRng(seed^0x5eed0d09e, uint64(idx))
+		styles := make([]int, k)
+		anyWrapped := false
+		wrapAll := r2.Chance(15)
+		for i := range styles {
+			if wrapAll || r2.Chance(35) {
+				styles[i] = pqDoneWrapped + r2.Intn(2)
+				anyWrapped = true
+				if len(inputs[i]) == 0 {
+					res.Stat("input:wrapped-done:empty-from-start")
+				} else {
+					res.Stat("input:wrapped-done:runs-dry-later")
+				}
+			} else {
+				res.Stat("input:bare-done")
+			}
+		}
+		failIn, failAt := -1, -1
+		if k > 0 && r2.Chance(15) {
+			failIn = r2.Intn(k)
+			failAt = r2.Intn(len(inputs[failIn]) + 1)
+			switch {
+			case failAt == 0:
+				res.Stat("input:read-error:first-call")
+			case failAt == len(inputs[failIn]):
+				res.Stat("input:read-error:instead-of-done")
+			default:
+				res.Stat("input:read-error:mid-input")
+			}
+		}
 		var its []pq.IteratorWithContext[[]byte, []byte, int]
-		var tok []string
+		var sis []*sliceIter
+		var tok, tokCut, styleTok []string
+		total := 0
 		for i, in := range inputs {
-			its = append(its, &sliceIter{items: in, ctx: i})
+			si := &sliceIter{items: in, ctx: i, done: styles[i], failAt: -1}
+			if i == failIn {
+				si.failAt = failAt
+			}
+			sis = append(sis, si)
+			its = append(its, si)
 			var parts []string
 			for _, it := range in {
 				parts = append(parts, gb(it[0])+":"+string(it[1]))
 			}
+			total += len(in)
 			tok = append(tok, strings.Join(parts, ";"))
+			if i == failIn {
+				parts = parts[:failAt]
+			}
+			tokCut = append(tokCut, strings.Join(parts, ";"))
+			styleTok = append(styleTok, pqDoneNames[styles[i]])
 		}
 		cs := "inputs=" + strings.Join(tok, "|")
 		if nonEmpty >= 2 {
 			res.NoteNontrivial(cs)
 		}
 		res.Sample(cs)
+		// what distinguishes the case beyond its element lists (part of the reported case, not of the distinctness key)
+		csFull := cs + " done=" + strings.Join(styleTok, "|")
+		if failIn >= 0 {
+			csFull += fmt.Sprintf(" read-error=input %d call %d", failIn, failAt)
+		}
+		sigSuffix := ""
+		if anyWrapped {
+			sigSuffix = ":wrapped-done"
+		}
 		var cmp skiplist.Comparator[[]byte] = skiplist.BytesComparator{}
 		if sc := []int{1, 1, 2, 7, 1000}[r.Intn(5)]; sc != 1 {
 			cmp = scaledBytesCmp{sc}
 			res.Stat("cmp:magnitudes-other-than-1")
 		}
-		q, err := pq.NewPriorityQueue[[]byte, []byte, int](cmp, its)
-		if err != nil {
-			return err
-		}
-		var outParts []string
 		type trip struct {
 			k, v string
 			c    int
 		}
 		var out []trip
-		for j := 0; j < 1000000; j++ {
-			kk, v, c, err := q.Next()
-			if errors.Is(err, pq.Done) {
-				break
+		var outParts []string
+		var runErr error // the non-Done error the queue reported (constructor or Next)
+		terminated := false
+		q, err := pq.NewPriorityQueue[[]byte, []byte, int](cmp, its)
+		if err != nil {
+			runErr = err
+		} else {
+			// a correct queue needs total+1 calls; a few more are granted before the run is declared non-terminating
+			for j := 0; j < total+8; j++ {
+				kk, v, c, err := q.Next()
+				if errors.Is(err, pq.Done) {
+					terminated = true
+					break
+				}
+				if err != nil {
+					runErr = err
+					break
+				}
+				out = append(out, trip{string(kk), string(v), c})
+				outParts = append(outParts, gb(nonNil(kk))+":"+string(v)+":"+strconv.Itoa(c))
 			}
-			if err != nil {
-				return err
-			}
-			out = append(out, trip{string(kk), string(v), c})
-			outParts = append(outParts, gb(nonNil(kk))+":"+string(v)+":"+strconv.Itoa(c))
 		}
 		impl := "[]"
 		if len(outParts) > 0 {
 			impl = strings.Join(outParts, ";")
 		}
-		// oracle: non-descending, every element exactly once with its input's identity, per-input order kept
 		res.Evaluations++
 		okSorted := true
 		for j := 1; j < len(out); j++ {
@@ -431,7 +523,82 @@ func runPq(res *Result, drv *Driver, seed uint64, n int, tier string, only int) 
 			}
 			perInput[t.c] = append(perInput[t.c], t)
 		}
-		okPerm := true
+		if failIn >= 0 {
+			// oracle for a failing input: the error must be reported (never Done, never an endless stream), it must be the
+			// input's error and not pq.Done; what was emitted before is sorted and a prefix of every input
+			switch {
+			case runErr == nil && terminated:
+				res.Violate(idx, "C16", "pq:read-error-absorbed"+sigSuffix, "an input returned a real error, the queue reported Done after: "+impl, csFull)
+			case runErr == nil:
+				res.Violate(idx, "C16", "pq:read-error-absorbed"+sigSuffix, "an input returned a real error, the queue keeps emitting elements: "+impl, csFull)
+			case !errors.Is(runErr, errPqRead) || errors.Is(runErr, pq.Done):
+				res.Violate(idx, "C16", "pq:read-error-replaced"+sigSuffix, "the queue reported "+runErr.Error()+" which is not the input's error", csFull)
+			}
+			if !sis[failIn].hit {
+				res.Violate(idx, "C16", "pq:read-error-not-reached"+sigSuffix, "the queue finished without calling the failing input's Next often enough: "+impl, csFull)
+			}
+			okPrefix := true
+			for i, in := range inputs {
+				lim := len(in)
+				if i == failIn {
+					lim = failAt
+				}
+				if len(perInput[i]) > lim {
+					okPrefix = false
+					continue
+				}
+				for j := range perInput[i] {
+					if string(in[j][0]) != perInput[i][j].k || string(in[j][1]) != perInput[i][j].v {
+						okPrefix = false
+					}
+				}
+			}
+			if !okSorted {
+				res.Violate(idx, "C16", "pq:order:before-read-error"+sigSuffix, "output not in non-descending key order: "+impl, csFull)
+			}
+			if !okPrefix {
+				res.Violate(idx, "C16", "pq:elements:before-read-error"+sigSuffix, "output is not made of prefixes of the inputs: "+impl, csFull)
+			}
+			// model: the run is the run over the inputs with the failing one cut at the failing call, up to (excluding) the
+			// element whose removal asks the failing input for its next element, i.e. its last element before the error
+			line := "pq.run inputs=" + strings.Join(tokCut, "|")
+			m, err := drv.Ask(line)
+			if err != nil {
+				return err
+			}
+			want := m
+			if !strings.Contains(m, "bad-op") {
+				var mt []string
+				if m != "[]" {
+					mt = strings.Split(m, ";")
+				}
+				seen := 0
+				cut := len(mt)
+				if failAt == 0 {
+					cut = 0 // the constructor fails
+				}
+				for j, t := range mt {
+					if failAt > 0 && strings.HasSuffix(t, ":"+strconv.Itoa(failIn)) {
+						seen++
+						if seen == failAt {
+							cut = j
+							break
+						}
+					}
+				}
+				want = "[]"
+				if cut > 0 {
+					want = strings.Join(mt[:cut], ";")
+				}
+			}
+			res.Cmp(idx, "pq.run (elements emitted before the read error)", want, impl, csFull)
+			continue
+		}
+		if runErr != nil {
+			res.Violate(idx, "C16", "pq:error-without-fault"+sigSuffix, "the queue reported "+runErr.Error()+" although no input failed", csFull)
+		}
+		// oracle: non-descending, every element exactly once with its input's identity, per-input order kept
+		okPerm := terminated
 		for i, in := range inputs {
 			if len(in) != len(perInput[i]) {
 				okPerm = false
@@ -444,10 +611,14 @@ func runPq(res *Result, drv *Driver, seed uint64, n int, tier string, only int) 
 			}
 		}
 		if !okSorted {
-			res.Violate(idx, "C16", "pq:order", "output not in non-descending key order: "+impl, cs)
+			res.Violate(idx, "C16", "pq:order"+sigSuffix, "output not in non-descending key order: "+impl, csFull)
 		}
 		if !okPerm {
-			res.Violate(idx, "C16", "pq:elements", "output is not every element of every input exactly once: "+impl, cs)
+			d := "output is not every element of every input exactly once: " + impl
+			if !terminated && runErr == nil {
+				d = fmt.Sprintf("no Done after %d calls for %d elements; ", total+8, total) + d
+			}
+			res.Violate(idx, "C16", "pq:elements"+sigSuffix, d, csFull)
 		}
 		line := "pq.run inputs=" + strings.Join(tok, "|")
 		if k == 0 {
@@ -457,7 +628,7 @@ func runPq(res *Result, drv *Driver, seed uint64, n int, tier string, only int) 
 		if err != nil {
 			return err
 		}
-		res.Cmp(idx, "pq.run", m, impl, cs)
+		res.Cmp(idx, "pq.run", m, impl, csFull)
 	}
 	return nil
 }
